@@ -308,6 +308,19 @@ theorem recogniser_complete_for_peg_semantics (prog : Prog) (w : Array RTok) (hp
   · exact Or.inl h1
   · exact Or.inr h1.1
 
+/-- **exceptional_answer_means_no_outcome.**  On the pure fragment an exceptional answer other than running out of fuel - the
+    SyntaxError of a forced token (`&&'x'`) that is missing, or reading past the end of the token list - is given only where
+    the semantics assigns the rule NO outcome at that position: a forced token never turns an input the grammar matches, or
+    cleanly fails on, into an error. -/
+theorem exceptional_answer_means_no_outcome (prog : Prog) (w : Array RTok) (hp : pureB prog = true) (id fuel : Nat) (s : St)
+    (hc : CacheOK s) (hs : CSound prog w s) (hn : CNA s)
+    (hx : (execRule prog w fuel id s).1 = .raised ∨ (execRule prog w fuel id s).1 = .tokErr ∨ (execRule prog w fuel id s).1 = .undecided) :
+    ¬ ∃ r, SRule prog w id s.pos r := by
+  rintro ⟨r, h⟩
+  rcases recogniser_complete_for_peg_semantics prog w hp id s.pos r h fuel s rfl hc hs hn with h1 | h1
+  · rcases hx with hx | hx | hx <;> rw [hx] at h1 <;> cases h1
+  · rcases hx with hx | hx | hx <;> rw [hx] at h1 <;> simp [Res.verdict] at h1
+
 /-- **recogniser_decides_peg_semantics.**  Total correctness from the start state: for a pure program that passes the
     well-formedness certificate (`wfCert`, the hypothesis of `parser_total`), the semantics derives outcome `r` for a rule
     at position 0 IF AND ONLY IF the recogniser answers `r` for all sufficiently large fuel. -/
